@@ -260,6 +260,7 @@ func runC05(r *Run) {
 				f = &btpb.RowFilter{Filter: &btpb.RowFilter_Condition_{Condition: &btpb.RowFilter_Condition{PredicateFilter: la, TrueFilter: lb, FalseFilter: g.leaf(d, d.n(leafKinds), true)}}}
 			}
 		default:
+			g.nSamples = 0
 			f = g.tree(d, 0, true)
 		}
 		noteFilterProbes(r, f)
